@@ -19,9 +19,11 @@ ERR = -998
 def _bounds(tier):
   if tier == 'thorough':
     return dict(shard=dict(MaxN=12, MaxK=6, MaxDepth=2, MaxOff=2),
-                merged=dict(MaxParts=4, MaxPartLen=3, MaxTotal=7))
+                merged=dict(MaxParts=4, MaxPartLen=4, MaxTotal=7),
+                rng=dict(MaxLen=7, Batches={1, 2, 3, 4, 8, 64}, MaxBad=2))
   return dict(shard=dict(MaxN=8, MaxK=4, MaxDepth=2, MaxOff=1),
-              merged=dict(MaxParts=3, MaxPartLen=2, MaxTotal=5))
+              merged=dict(MaxParts=3, MaxPartLen=4, MaxTotal=5),
+              rng=dict(MaxLen=5, Batches={1, 2, 3, 8}, MaxBad=1))
 
 
 # ------------------------------------------------------------------ Shard
@@ -167,7 +169,7 @@ def _merged_part(chk, b):
   hs = gen.histories
   chk.count('merged_queries', len(hs))
   before = len(chk.violations) + sum(chk.known_hits.values())
-  batch_sizes = (1, 2, 64) if chk.tier == 'thorough' else (2, 64)
+  batch_sizes = (1, 2, 3, 64) if chk.tier == 'thorough' else (2, 3, 64)
   for h in hs:
     _replay_merged(chk, h, batch_sizes)
   chk.replayed(len(hs))
@@ -182,6 +184,84 @@ def _merged_part(chk, b):
     chk.notes.append(f'impl-level transcription violates {spec_failures} (reproduced on the code)')
 
 
+class BadSeq:
+  """Random-access data 0..n-1 whose positions in `bad` raise when read, alone or inside a slice."""
+
+  def __init__(self, n, bad):
+    self.n, self.bad = n, set(bad)
+    self.touched = set()
+
+  def __len__(self):
+    return self.n
+
+  def __getitem__(self, k):
+    if isinstance(k, slice):
+      idx = list(range(*k.indices(self.n)))
+      # positions actually requested, also beyond len (a reader must not ask for them)
+      lo = k.start or 0
+      hi = k.stop if k.stop is not None else self.n
+      self.touched.update(range(lo, hi))
+      if self.bad.intersection(idx):
+        raise ValueError(f'bad position in {k}')
+      return idx
+    self.touched.add(k)
+    if k in self.bad:
+      raise ValueError(f'bad position {k}')
+    if not 0 <= k < self.n:
+      raise IndexError(k)
+    return k
+
+
+def _replay_range(chk, h):
+  from ml_metrics._src.utils import iter_utils
+  bad = h['bad'] if isinstance(h['bad'], list) else []
+  data = BadSeq(h['len'], bad)
+  ctx = dict(kind='rangeiter', history=h)
+  try:
+    it = iter_utils._RangeIterator(data, h['start'], h['stop'], h['bs'])
+    got = []
+    for _ in h['results']:
+      try:
+        got.append(next(it))
+      except StopIteration:
+        got.append(-2)
+      except ValueError:
+        got.append(-1)
+  except Exception as e:  # pylint: disable=broad-exception-caught
+    chk.violation(f'range:exception:{type(e).__name__}', f'{e!r} {h}', ctx)
+    return
+  if got != h['results']:
+    kind = 'with-errors' if bad else 'no-errors'
+    chk.violation(f'range:results:{kind}', f'read-ahead {h["bs"]} over [{h["start"]},{h["stop"]}) of {h["len"]} bad={bad}: '
+                  f'got {got} want {h["results"]}', dict(ctx, got=got))
+    return
+  outside = sorted(x for x in data.touched if not h['start'] <= x < h['stop'])
+  if outside:
+    chk.violation('range:reads-outside', f'positions {outside} outside [{h["start"]},{h["stop"]}) were read (read-ahead {h["bs"]})', ctx)
+
+
+def _range_part(chk, b):
+  consts = b['rng']
+  mc = tlc.run('source', 'RangeIter',
+               tlc.cfg_text(constants=consts, invariants=['InRange', 'PrefixOfExpected', 'StopOnlyAtEnd', 'Complete'],
+                            view='View', deadlock=False), coverage=True, timeout=1800)
+  chk.add_tlc(mc, 'RangeIter/MC')
+  if not mc.ok:
+    chk.machinery_failure(f'RangeIter.tla violates {mc.error_kind} {mc.error_name}')
+  if tlc.require_covered(mc, ['Call']):
+    chk.machinery_failure('vacuous RangeIter model')
+  gen = tlc.run('source', 'RangeIter', tlc.cfg_text(constants=consts, invariants=['Emit'], deadlock=False),
+                workers=1, timeout=1800)
+  if not gen.ok:
+    chk.machinery_failure(f'RangeIter export failed: {gen.error_kind} {gen.error_name}')
+  hs = gen.histories
+  chk.count('range_behaviours', len(hs))
+  for h in hs:
+    _replay_range(chk, h)
+  chk.replayed(len(hs))
+  chk.add_samples([h for h in hs if h['bad'] and h['stop'] - h['start'] >= 3][:1])
+
+
 def body(chk):
   b = _bounds(chk.tier)
   chk.coverage['bounds'] = b
@@ -193,6 +273,7 @@ def body(chk):
   ]
   _shard_part(chk, b)
   _merged_part(chk, b)
+  _range_part(chk, b)
 
 
 if __name__ == '__main__':
